@@ -88,4 +88,21 @@ def Carries (decode : Decoder) (envJ : J) : List Mapping → List Cred → Prop
 def EnumErrorsHideNothing (cfg : Cfg) (re : Regex) (v : J) : Prop :=
   ∀ e msg, matchCore cfg re "string" (some e) none v = .err msg → ¬ Matches re "string" (some e) none v
 
+/-- submission requirement rule on counts: `all`: every member is selectable and selected; `pick`: exactly `count`
+    members, or (without `count`) at least `min` and at most `max` -/
+def RuleOK (rule : String) (count min max : Option Nat) (nTotal nAvail nSel : Nat) : Prop :=
+  if rule = "all" then nAvail = nTotal ∧ nSel = nTotal
+  else match count with
+    | some c => nSel = c
+    | none => (∀ m, min = some m → m ≤ nSel) ∧ (∀ m, max = some m → nSel ≤ m)
+
+/-- the selectable members of the list `apply` works on -/
+def available (list : List Member) : List (List Cred) := list.filterMap id
+
+/-- the list of members a submission requirement ranges over: the candidates of its group (`from`), or the results
+    of its nested requirements (`from_nested`; a nested requirement that fails or selects nothing is an empty member) -/
+def MembersOf (cfg : Cfg) (cands : List Cand) (s : SR) (members : List Member) : Prop :=
+  (s.frm ≠ "" ∧ s.nested = [] ∧ members = (groupMembers cands s.frm).map fromMember) ∨
+  (s.frm = "" ∧ s.nested ≠ [] ∧ SR.nestedMembers cfg cands s.nested = .ok members)
+
 end Nuts.C12
